@@ -270,6 +270,10 @@ class Report(object):
                    'describe': scn.describe() if scn is not None else None,
                    'choices': v['path'], 'kind': v['kind'],
                    'assertion': v['message']}
+            if v.get('path_b') is not None:
+                doc['choices_b'] = v['path_b']
+                if v.get('spec_b') is not None:
+                    doc['spec_b'] = v['spec_b']
             with open(path, 'w') as f:
                 json.dump(doc, f, indent=1, default=str)
             todo.append((v, k, path))
@@ -380,6 +384,22 @@ def run_replay(prop, path, quiet=False):
         return 0
     from mc import explore
     scn = build_scenario(doc['spec'])
+    if 'choices_b' in doc:
+        # differential violation: two schedules (or two configurations) of
+        # the same scenario must end with the same outcome
+        ra = explore.replay(scn, doc['choices'])
+        scn_b = build_scenario(doc.get('spec_b') or doc['spec'])
+        rb = explore.replay(scn_b, doc['choices_b'])
+        if ra['diverged'] or rb['diverged']:
+            print('REPLAY-DIVERGED %s' % (ra['diverged'] or rb['diverged']))
+            return 2
+        if ra['outcome'] != rb['outcome']:
+            print('REPLAY-VIOLATION property=%s' % prop)
+            print('   outcome A: %s' % str(ra['outcome'])[:700])
+            print('   outcome B: %s' % str(rb['outcome'])[:700])
+            return 1
+        print('REPLAY-OK (same outcome)')
+        return 0
     r = explore.replay(scn, doc['choices'])
     if not quiet:
         for s in r['steps']:
